@@ -549,6 +549,16 @@ theorem sessOp_updnoc_noRef (cfg : Cfg) (n : Node) (sid s node ser : Nat) (mode 
        refine noRef_congr (n := n) (fun i => ?_) rfl rfl h
        exact hasIdx_map_set n.fabrics { f with node := node, ser := ser } i)
 
+/-- the undo of the first write of a failed CommissioningComplete touches the store only -/
+theorem undoAdded_frame (n : Node) (idx : Nat) : Frame n (undoAdded n idx) := by
+  unfold undoAdded
+  split
+  · exact (removeFabricKey_spec n idx).1
+  · exact Frame.refl n
+
+theorem undoAdded_noRef (n : Node) (idx : Nat) (h : NoRef n) : NoRef (undoAdded n idx) :=
+  noRef_fields (undoAdded_frame n idx).fabrics (undoAdded_frame n idx).sessions (undoAdded_frame n idx).resum h
+
 theorem sessOp_complete_noRef (cfg : Cfg) (n : Node) (sid s : Nat) (mode : Mode) (h : NoRef n) :
     NoRef (sessOp cfg n sid mode (.complete s)).1 := by
   simp only [sessOp]
@@ -577,7 +587,7 @@ theorem sessOp_complete_noRef (cfg : Cfg) (n : Node) (sid s : Nat) (mode : Mode)
           simp only at b1 b2 b3
           have h4 : NoRef n4 := noRef_fields b1 b2 b3 h3
           cases b4 with
-          | false => exact noRef_fields rfl rfl rfl h4
+          | false => exact undoAdded_noRef _ f.idx (noRef_fields rfl rfl rfl h4)
           | true =>
             simp only [ok]
             refine noRef_mono (n := n4) (fun i hi => hi) ?_ (fun r' hr' => ⟨r', hr', rfl⟩) h4
